@@ -7,6 +7,37 @@ import (
 	"github.com/EliCDavis/vector/vector4"
 )
 
+// filterPrimitives returns the indices of the primitives that survive a vertex
+// filter. Triangles and quads are kept or dropped as a whole (a primitive
+// survives when every one of its vertices does), so the resulting index count
+// always fits the topology; every other topology is filtered index by index.
+func filterPrimitives(m modeling.Mesh, keep func(vertex int) bool) []int {
+	size := 1
+	switch m.Topology() {
+	case modeling.TriangleTopology, modeling.QuadTopology:
+		size = m.Topology().IndexSize()
+	}
+
+	indices := m.Indices()
+	finalIndices := make([]int, 0)
+	for start := 0; start+size <= indices.Len(); start += size {
+		keepPrimitive := true
+		for i := start; i < start+size; i++ {
+			if !keep(indices.At(i)) {
+				keepPrimitive = false
+				break
+			}
+		}
+		if !keepPrimitive {
+			continue
+		}
+		for i := start; i < start+size; i++ {
+			finalIndices = append(finalIndices, indices.At(i))
+		}
+	}
+	return finalIndices
+}
+
 type FilterFloat1Transformer struct {
 	Attribute string
 	Filter    func(v float64) bool
@@ -32,13 +63,10 @@ func FilterFloat1(m modeling.Mesh, attribute string, filter func(v float64) bool
 		}
 	}
 
-	indices := m.Indices()
-	finalIndices := make([]int, 0)
-	for i := 0; i < indices.Len(); i++ {
-		if _, ok := verticeToKeep[indices.At(i)]; ok {
-			finalIndices = append(finalIndices, indices.At(i))
-		}
-	}
+	finalIndices := filterPrimitives(m, func(vertex int) bool {
+		_, ok := verticeToKeep[vertex]
+		return ok
+	})
 
 	return RemovedUnreferencedVertices(m.SetIndices(finalIndices))
 }
@@ -70,13 +98,10 @@ func FilterFloat2(m modeling.Mesh, attribute string, filter func(v vector2.Float
 		}
 	}
 
-	indices := m.Indices()
-	finalIndices := make([]int, 0)
-	for i := 0; i < indices.Len(); i++ {
-		if _, ok := verticeToKeep[indices.At(i)]; ok {
-			finalIndices = append(finalIndices, indices.At(i))
-		}
-	}
+	finalIndices := filterPrimitives(m, func(vertex int) bool {
+		_, ok := verticeToKeep[vertex]
+		return ok
+	})
 
 	return RemovedUnreferencedVertices(m.SetIndices(finalIndices))
 }
@@ -108,13 +133,9 @@ func FilterFloat3(m modeling.Mesh, attribute string, filter func(v vector3.Float
 		}
 	}
 
-	indices := m.Indices()
-	finalIndices := make([]int, 0)
-	for i := 0; i < indices.Len(); i++ {
-		if verticeToKeep[indices.At(i)] {
-			finalIndices = append(finalIndices, indices.At(i))
-		}
-	}
+	finalIndices := filterPrimitives(m, func(vertex int) bool {
+		return verticeToKeep[vertex]
+	})
 
 	return RemovedUnreferencedVertices(m.SetIndices(finalIndices))
 }
@@ -146,13 +167,10 @@ func FilterFloat4(m modeling.Mesh, attribute string, filter func(v vector4.Float
 		}
 	}
 
-	indices := m.Indices()
-	finalIndices := make([]int, 0)
-	for i := 0; i < indices.Len(); i++ {
-		if _, ok := verticeToKeep[indices.At(i)]; ok {
-			finalIndices = append(finalIndices, indices.At(i))
-		}
-	}
+	finalIndices := filterPrimitives(m, func(vertex int) bool {
+		_, ok := verticeToKeep[vertex]
+		return ok
+	})
 
 	return RemovedUnreferencedVertices(m.SetIndices(finalIndices))
 }
